@@ -270,6 +270,51 @@ def _exits_in(ck, fi, cfg, reads, mode):
                 ck.ob(R, fi, r.ast, ok, "the per-request helper returns a true value only when read_response returned a true value", construct="return after read_response")
 
 
+def _guard_signature(fi, call):
+    """The disjuncts (canonical text) of the innermost `if` whose body contains ``call``; None if the call
+    is unconditional within the function; raises AnalysisError for shapes it cannot read."""
+    pm = q.parent_map(fi.node)
+    child = call
+    for a in q.ancestors(pm, call):
+        if isinstance(a, q.ScopeNode):
+            return None
+        if isinstance(a, ast.If):
+            if any(child is s_ or any(child is x for x in ast.walk(s_)) for s_ in a.body):
+                return frozenset(canon_fact(d, True) for d in q.split_disj(a.test))
+            raise AnalysisError("%s: %s sits in an else branch (guard shape not modelled)" % (fi.qualname, q.unparse(call)))
+        if isinstance(a, (ast.While, ast.For, ast.AsyncFor, ast.Try, ast.With, ast.AsyncWith)):
+            child = a
+            continue
+        child = a
+    return None
+
+
+def _delivery_agreement(ck, rm):
+    R = "C05.finish-iff-delivered"
+    dp = _delegate_param(rm)
+    fin = [c for _n, c in call_sites(rm, dp + ".finish")]
+    if not fin:
+        return
+    fsig = {_guard_signature(rm, c) for c in fin}
+    if len(fsig) != 1:
+        raise AnalysisError("delegate.finish() is called under differing guards in %s" % rm.qualname)
+    fsig = next(iter(fsig))
+    n = 0
+    cls = rm.qualname.rsplit(".", 1)[0]
+    for reader in ck.repo.direct_methods(rm.file, cls):
+        if reader is rm or not reader.name.startswith("_read_"):
+            continue
+        ps = [p_ for p_ in reader.params() if p_ != "self"]
+        sites = [c for c in q.calls(reader.node) if isinstance(c.func, ast.Attribute) and c.func.attr == "data_received" and q.dotted(c.func.value) in ps]
+        for c in sites:
+            n += 1
+            sig = _guard_signature(reader, c)
+            ck.use(reader)
+            ck.ob(R, reader, c, sig == fsig, "body chunks are delivered under the same condition as delegate.finish() (%s vs %s)" % (
+                sorted(t for t, _p in (sig or [])), sorted(t for t, _p in (fsig or []))))
+    ck.floor(R, n, 2, "data_received sites in the body readers")
+
+
 def _ends_wait(ck, fi, depth):
     """Number of guarded settles of self._finish_future in ``fi`` or in the same-class methods it calls
     (two levels): every settle found must be guarded (checked as obligations)."""
@@ -328,6 +373,7 @@ def run(ck):
     ck.rule("C05.close-order", "HTTP1ServerConnection.close closes the stream before awaiting the serving future; close_all_connections awaits conn.close() while the set is non-empty")
     ck.rule("C05.wait-close-callback", "while waiting for the application's response a disconnect is delivered: the stream close callback is armed after the body was read and before the wait; it invokes the application's callback by take-and-clear and ends the wait")
     ck.rule("C05.loop-exits-on-error", "the per-connection serving loop terminates when reading a request fails or returns false, so that close_all_connections completes")
+    ck.rule("C05.finish-iff-delivered", "delegate.finish() is called under the same condition under which the body readers deliver data_received (a delegate whose body chunks were diverted is not told 'finished')")
     ck.rule("C05.forward", "forwarding delegates call the same-named terminal method of the wrapped delegate exactly once on every normal path")
     ck.rule("C05.terminal-siblings", "every HTTPMessageDelegate implementation that overrides finish also overrides on_connection_close (and vice versa)")
 
@@ -363,6 +409,12 @@ def run(ck):
     sc = ck.func(H1, "HTTP1ServerConnection.close")
     nb = require_before(ck, "C05.close-order", sc, lambda n: n.suspends, node_calls("self.stream.close"), "stream closed before awaiting the serving future")
     ck.floor("C05.close-order", nb, 1, "awaits in HTTP1ServerConnection.close")
+
+    # "told it finished" must mean "received the whole body": the condition under which body chunks are
+    # delivered to the delegate in the body readers and the condition under which delegate.finish() is called
+    # are the same predicate (sibling agreement).  A delegate whose chunks were diverted (early response)
+    # must be told "closed", not "finished".
+    _delivery_agreement(ck, fi)
 
     # close while waiting for the response: the stream close callback is armed only after the whole
     # request was read (before that a close surfaces as StreamClosedError inside the try and is reported
@@ -500,5 +552,6 @@ MUTANTS = [
     ("_on_connection_close does not end the wait", _in(H1, "HTTP1Connection._on_connection_close", remove_stmts(lambda st: isinstance(st, ast.If) and "_finish_future" in ast.unparse(st.test))), "C05.wait-close-callback"),
     ("serving loop swallows StreamClosedError and continues", _in(H1, "HTTP1ServerConnection._server_request_loop", replace_stmt(lambda st: isinstance(st, ast.Return) and st.value is None, lambda st: [ast.Continue()])), "C05.loop-exits-on-error"),
     ("serving loop ignores a false read_response result", _in(H1, "HTTP1ServerConnection._server_request_loop", remove_stmts(lambda st: isinstance(st, ast.If) and isinstance(st.test, ast.UnaryOp) and isinstance(st.body[0], ast.Return))), "C05.loop-exits-on-error"),
+    ("finish() guarded by the finish future instead of _write_finished", _in(H1, "HTTP1Connection._read_message", replace_expr(lambda n: isinstance(n, ast.Attribute) and n.attr == "_write_finished" and isinstance(n.ctx, ast.Load), lambda n: ast.parse("self._finish_future.done()", mode="eval").body, limit=5)), None),
     ("await serving future before closing stream", _in(H1, "HTTP1ServerConnection.close", remove_stmts(lambda st: "self.stream.close" in ast.unparse(st))), "C05.close-order"),
 ]
